@@ -1,4 +1,5 @@
 import QuantemModel.Lemmas.ResampleCalibExt
+import QuantemModel.Lemmas.ResampleCommute
 /-!
 C06 — growth round 6 (listed in `EXTRA_PROPS` of harness/props/c06.py): N-D calibration of `bin`,
 order independence of the per-axis calibration folds of `bin` and `fourier_resample`, and the
@@ -7,7 +8,7 @@ rounding of the `factors=` entry point.  Theorems about `Model/Dataset.lean` (`b
 `axis_to_factor.items()` / `zip(axes, out_shape)`) and `Model/Resample.lean`.
 -/
 namespace QuantemModel.Props.C06
-open QuantemModel QuantemModel.Nd QuantemModel.Resample
+open QuantemModel QuantemModel.Nd QuantemModel.Dft QuantemModel.Resample Complex
 
 /-- **N-D calibration of `bin`**: after `Dataset.bin` has run its sequential update over the items
 of `axis_to_factor` (distinct axes, each inside the calibration vectors), on EVERY binned axis
@@ -75,6 +76,57 @@ theorem resample_factor_nearest (n : Nat) (f : Rat) :
     rw [he, Dataset.round_int]
     omega
 
+/-! ### order independence of the per-axis resampling fold (the open end of growth round 5) -/
+
+/-- **the 1-D operator is a linear map with a kernel that depends on the two lengths only**: output
+sample `j` of the unscaled operator is `Σ_i kerC n m j i · x[i]` for every signal `x` of length `n`. -/
+theorem resample_kernel (x : List (Cx ℝ)) (m j : ℕ) (hj : j < m) :
+    toC ((resample1U m x).getD j Cx.zero)
+      = ∑ i ∈ Finset.range x.length, kerC x.length m j i * toC (x.getD i Cx.zero) :=
+  resample1U_kernel x m j hj
+
+/-- **two steps of the fold along different axes commute**, for every array, all lengths (up, down,
+odd, even). -/
+theorem resample_steps_commute (a : Arr (Cx ℝ)) (ax1 m1 ax2 m2 : ℕ) (hne : ax1 ≠ ax2)
+    (h1 : ax1 < a.shape.length) (h2 : ax2 < a.shape.length) :
+    alongAxis (alongAxis a ax1 m1 (resample1U m1)) ax2 m2 (resample1U m2)
+      = alongAxis (alongAxis a ax2 m2 (resample1U m2)) ax1 m1 (resample1U m1) :=
+  alongAxis_comm a ax1 m1 ax2 m2 hne h1 h2
+
+/-- **order independence of the per-axis resampling fold**: every permutation of the
+(axis, new length) pairs (distinct valid axes) gives the same array — `axes=(1,0)` with the lengths
+exchanged is `axes=(0,1)`. -/
+theorem resampleFold_order_independent (a : Arr (Cx ℝ)) (l1 l2 : List (ℕ × ℕ)) (hp : l1.Perm l2)
+    (hnd : (l1.map Prod.fst).Nodup) (hv : ∀ p ∈ l1, p.1 < a.shape.length) :
+    resampleFold a l1 = resampleFold a l2 :=
+  resampleFold_perm hp a hnd hv
+
+/-- **`fourier_resample` is independent of the order of its axes** — the N-D operator as the code
+runs it (real or complex path, rescale included). -/
+theorem resampleNd_order_independent (a : Arr (Cx ℝ)) (axes outs axes' outs' : List ℕ) (isReal : Bool)
+    (hl : axes.length = outs.length) (hl' : axes'.length = outs'.length)
+    (hp : (axes.zip outs).Perm (axes'.zip outs')) (hnd : axes.Nodup)
+    (hv : ∀ ax ∈ axes, ax < a.shape.length) :
+    resampleNd a axes outs isReal = resampleNd a axes' outs' isReal :=
+  resampleNd_perm a axes outs axes' outs' isReal hl hl' hp hnd hv
+
+/-- **N-D round trip with the same `axes` argument both times** (complex data): up-sampling any
+distinct axes and resampling THE SAME axes tuple back to the original lengths returns the original
+array (`resampleNd_roundtrip` of round 5 needed the axes reversed on the way back). -/
+theorem resampleNd_roundtrip_same_order (a : Arr (Cx ℝ)) (ha : WFArr a) (axes outs : List ℕ) (hnd : axes.Nodup)
+    (hl : axes.length = outs.length) (hv : ∀ ax ∈ axes, ax < a.shape.length)
+    (h : UpOk a.shape (axes.zip outs)) (hok : PairsOk a.shape (axes.zip outs)) :
+    resampleNd (resampleNd a axes outs false) axes (axes.map fun ax => a.shape.getD ax 1) false = a :=
+  resampleNd_up_down_same_order a ha axes outs hnd hl hv h hok
+
+/-- the same for REAL arrays as the code runs them (`.real` after each inverse transform), under the
+per-stage no-Nyquist condition `RealUp`. -/
+theorem resampleNd_roundtrip_real_same_order (a : Arr (Cx ℝ)) (ha : WFArr a) (hr : IsRealArr a) (axes outs : List ℕ)
+    (hnd : axes.Nodup) (hl : axes.length = outs.length) (hv : ∀ ax ∈ axes, ax < a.shape.length)
+    (h : RealUp a (axes.zip outs)) :
+    resampleNd (resampleNd a axes outs true) axes (axes.map fun ax => a.shape.getD ax 1) true = a :=
+  resampleNd_up_down_real_same_order a ha hr axes outs hnd hl hv h
+
 /-! ### non-vacuity -/
 
 example : Dataset.binCalib [0, 10] [1, -2] [(1, 3), (0, 2)] = ([1 / 2, 8], [2, -6]) := by
@@ -86,5 +138,10 @@ example : Dataset.resampleCalib [4, 6] [0, 1] [1, -1] [(1, 3), (0, 8)]
   simp [Dataset.resampleCalib, resampleMeta]
 example : outLen 6 (1 / 2) = 3 ∧ 1 ≤ roundHalfEven ((6 : Rat) * (1 / 2)) :=
   ⟨by with_unfolding_all rfl, by with_unfolding_all decide⟩
+
+example : ([1, 0].zip [7, 6] : List (ℕ × ℕ)).Perm ([0, 1].zip [6, 7]) := List.Perm.swap _ _ _
+example : ([1, 0] : List ℕ).Nodup ∧ ∀ ax ∈ ([1, 0] : List ℕ), ax < ([5, 8] : List ℕ).length := by decide
+example : PairsOk [3, 4] ([1, 0].zip [6, 3]) ∧ UpOk [3, 4] ([1, 0].zip [6, 3]) := by
+  simp [PairsOk, UpOk]
 
 end QuantemModel.Props.C06
